@@ -55,7 +55,7 @@ type c17Sc struct {
 	Unknown []string `json:"unknown_variants"` // main-template sources with one name replaced by an unknown one
 	Debug   bool     `json:"debug"`
 	MaxK    int      `json:"max_k,omitempty"` // cap on enumerated fault positions (default 64)
-	Warm    bool     `json:"warm,omitempty"` // the engine has rendered the program before; auto-reload is on and every template has changed on "disk" since (timestamp-aware loader), so the observed render re-reads what it had cached
+	Warm    bool     `json:"warm,omitempty"`  // the engine has rendered the program before; auto-reload is on and every template has changed on "disk" since (timestamp-aware loader), so the observed render re-reads what it had cached
 	Via     string   `json:"via,omitempty"`   // "" = Engine.Render, "renderto" = Engine.RenderTo, "load" = Load + Template.Render, "compiled" = the main template reaches the engine as compiled bytes
 }
 
